@@ -6,6 +6,7 @@ PROP = {'counts': {'quick': 200, 'thorough': 10000},
          'non-trivial as for C01; '
          'programs also hold ApplyBatch calls with merge operands (mbatch: merge-only, mixed, empty; model '
          'Engine.merge_batch / mixed_batch, theorems C08_*_m of EngineMerge.v), with a directed family where a '
-         'merge-only batch is the last write before a reopen; the bar of the oracle is never lowered by a reopen',
+         'merge-only batch is the last write before a reopen; the bar of the oracle is never lowered by a reopen'
+         ' Added later: crash recoveries (level=crash: the crash programs of C02 run by its runner, a child process dies at an armed site; oracle follows last_sequence over the recovery, the writes after it and a clean restart; oracle only), and the retention rule of the log as the code spells it (gen/RetentionFacts.v, C08_retention_keeps_highest_number).',
  'assumptions': ['as C01'],
  'partial': ''}
